@@ -21,8 +21,11 @@ REQUIRED = {
 
 
 def _is_tracker_call(n, name):
-    return (isinstance(n, ast.Call) and isinstance(n.func, ast.Attribute) and n.func.attr == name
-            and isinstance(n.func.value, ast.Attribute) and n.func.value.attr == "tracker")
+    """<x>.tracker.<name>(...) or tracker.<name>(...) through a local / parameter called `tracker` (tracker = self.tracker)"""
+    if not (isinstance(n, ast.Call) and isinstance(n.func, ast.Attribute) and n.func.attr == name):
+        return False
+    recv = n.func.value
+    return (isinstance(recv, ast.Attribute) and recv.attr == "tracker") or (isinstance(recv, ast.Name) and recv.id in ("tracker", "trk", "device_tracker"))
 
 
 def check(ctx):
@@ -72,6 +75,24 @@ def check(ctx):
                 for k, v in zip(n.value.keys, n.value.values)):
             for k, v in zip(n.value.keys, n.value.values):
                 covered[k.value] = (v.id, n)
+    # the same table kept at module level as a dict or as a tuple/list of (name, wrapper) pairs that simulator_tracking iterates
+    for st_ in m.tree.body:
+        v_ = st_.value if isinstance(st_, (ast.Assign, ast.AnnAssign)) else None
+        tname = None
+        if isinstance(st_, ast.Assign) and len(st_.targets) == 1 and isinstance(st_.targets[0], ast.Name):
+            tname = st_.targets[0].id
+        elif isinstance(st_, ast.AnnAssign) and isinstance(st_.target, ast.Name):
+            tname = st_.target.id
+        if v_ is None or tname is None or not any(isinstance(x_, ast.Name) and x_.id == tname for x_ in ast.walk(st.node)):
+            continue
+        pairs = []
+        if isinstance(v_, ast.Dict):
+            pairs = list(zip(v_.keys, v_.values))
+        elif isinstance(v_, (ast.Tuple, ast.List)) and all(isinstance(e_, (ast.Tuple, ast.List)) and len(e_.elts) == 2 for e_ in v_.elts):
+            pairs = [(e_.elts[0], e_.elts[1]) for e_ in v_.elts]
+        if pairs and all(isinstance(k_, ast.Constant) and isinstance(k_.value, str) and isinstance(w_, ast.Name) and w_.id.startswith("_track") for k_, w_ in pairs):
+            for k_, w_ in pairs:
+                covered[k_.value] = (w_.id, st_)
     if not covered:
         raise AnalysisError("simulator_tracking: no wrapper assignments / modifier_map found")
     for name, f in sorted(entry.items()):
@@ -166,7 +187,21 @@ def check(ctx):
             return nd.kind == "test" and "tracker.active" in norm(nd.stmt.test) and not isinstance(nd.stmt.test, ast.UnaryOp)
 
         ups = [nd for nd in cfg.stmts() if is_update(nd)]
-        if not ups:
+        # helpers of this module that are handed the tracker (or the device): literal keys they update count for this wrapper,
+        # anything else they do is not followed (missing keys become unknown for this wrapper)
+        delegates = [c_ for c_ in walk_shallow(inner) if isinstance(c_, ast.Call) and isinstance(c_.func, ast.Name) and c_.func.id in m.functions
+                     and any("tracker" in norm(a_) or norm(a_) == "self" for a_ in list(c_.args) + [k_.value for k_ in c_.keywords])]
+        if delegates:
+            splat_unknown.add(qn.split(".")[-1])
+            rep.unknown("R-C73-pair", f"{m.relpath}:{qn}", f"the tracker is handed to `{delegates[0].func.id}`; only the literal keys updated there are followed")
+            for d_ in delegates:
+                g_ = m.functions[d_.func.id]
+                for c_ in ast.walk(g_.node):
+                    if _is_tracker_call(c_, "update"):
+                        for kw in c_.keywords:
+                            if kw.arg:
+                                update_keys.setdefault(kw.arg, []).append((qn, kw.value))
+        elif not ups:
             rep.refuted("R-C73-pair", m.relpath, qn, inner, "wrapper never updates the tracker")
         for u in ups:
             for c in walk_shallow(u.stmt):
@@ -208,8 +243,27 @@ def check(ctx):
             else:
                 rep.proved("R-C73-pair", f"{m.relpath}:{qn} L{u.line} update->record", "record() on every path to the return")
             # guarded by active: every path entry->update passes the true edge of an active test
-            pa = cfg.path_avoiding(cfg.entry, u.id, is_active_test)
-            if pa is not None:
+            # every path entry -> update crosses an edge that establishes tracker.active (true edge of `if …active`, false edge of
+            # `if not …active: return`)
+            seen_, stack_, reach_ = {cfg.entry}, [cfg.entry], False
+            while stack_:
+                cur_ = stack_.pop()
+                if cur_ == u.id:
+                    reach_ = True
+                    break
+                nd_ = cfg.nodes[cur_]
+                glabel = None
+                if nd_.kind == "test" and "tracker.active" in norm(nd_.stmt.test).replace("tracker_active", "tracker.active") or (
+                        nd_.kind == "test" and norm(nd_.stmt.test).endswith(".active")):
+                    t_ = nd_.stmt.test
+                    glabel = "false" if isinstance(t_, ast.UnaryOp) and isinstance(t_.op, ast.Not) else ("true" if not isinstance(t_, ast.BoolOp) else None)
+                for s_, lab_ in cfg.succ[cur_]:
+                    if glabel is not None and lab_ == glabel:
+                        continue
+                    if s_ not in seen_:
+                        seen_.add(s_)
+                        stack_.append(s_)
+            if reach_:
                 rep.refuted("R-C73-pair", m.relpath, qn, u.stmt, "tracker.update(...) is reachable without testing tracker.active")
         # raw circuits uses
         _raw_uses(rep, m, qn, inner, circ, wrapped)
@@ -474,7 +528,11 @@ def _tracker(ix, rep):
                   and n.args and isinstance(n.args[0], ast.Name) and n.args[0].id == vn for b in nodes for n in ast.walk(b))
         cre = any(isinstance(n, ast.Assign) and "history" in norm(n.targets[0]) and isinstance(n.value, ast.List) and len(n.value.elts) == 1
                   and isinstance(n.value.elts[0], ast.Name) and n.value.elts[0].id == vn for b in nodes for n in ast.walk(b))
-        return app, cre
+        # self.history.setdefault(key, []).append(value): creates and appends in one expression
+        sd = any(isinstance(n, ast.Call) and isinstance(n.func, ast.Attribute) and n.func.attr == "append" and isinstance(n.func.value, ast.Call)
+                 and isinstance(n.func.value.func, ast.Attribute) and n.func.value.func.attr == "setdefault" and "history" in norm(n.func.value.func.value)
+                 and n.args and isinstance(n.args[0], ast.Name) and n.args[0].id == vn for b in nodes for n in ast.walk(b))
+        return app or sd, cre or sd
     appended, created = history_writes(lp.body, vname)
     helper_seen = False
     if not (appended and created):
@@ -506,8 +564,30 @@ def _tracker(ix, rep):
             sides = {norm(v.left), norm(v.right)}
             if vname in sides and any("totals.get" in s and s.endswith(", 0)") for s in sides):
                 good = True
+    if not good and not tot:
+        # totals updated in a helper that receives the totals mapping and the value (module-level function or method): follow one call
+        tm = ix.module(TRK)
+        for b in lp.body:
+            for c in ast.walk(b):
+                if isinstance(c, ast.Call) and any(isinstance(a_, ast.Name) and a_.id == vname for a_ in c.args) and any("totals" in norm(a_) for a_ in c.args):
+                    g = tm.functions.get(c.func.id) if isinstance(c.func, ast.Name) else (T.own_method(c.func.attr) if isinstance(c.func, ast.Attribute) else None)
+                    if g is None:
+                        continue
+                    helper_totals = True
+                    gp = [x.arg for x in g.node.args.args]
+                    vpos = [i for i, a_ in enumerate(c.args) if isinstance(a_, ast.Name) and a_.id == vname][0]
+                    off = 1 if gp and gp[0] in ("self", "cls") else 0
+                    vn2 = gp[vpos + off] if vpos + off < len(gp) else None
+                    for a in [n for n in ast.walk(g.node) if isinstance(n, ast.Assign) and isinstance(n.targets[0], ast.Subscript)]:
+                        v = a.value
+                        if isinstance(v, ast.BinOp) and isinstance(v.op, ast.Add):
+                            sides = {norm(v.left), norm(v.right)}
+                            if vn2 in sides and any(".get(" in s_ and s_.endswith(", 0)") for s_ in sides):
+                                good = True
     if good:
         rep.proved("R-C73-tracker", f"{TRK}:Tracker.update totals", "totals[key] = value + totals.get(key, 0)")
+    elif not tot and 'helper_totals' in locals():
+        rep.unknown("R-C73-tracker", f"{TRK}:Tracker.update totals", "totals are updated in a helper whose form is not followed")
     else:
         rep.refuted("R-C73-tracker", TRK, "Tracker.update", tot[0] if tot else lp, "totals are not accumulated as value + previous total")
     stores = {norm(t) for n in walk_shallow(rs.node) if isinstance(n, ast.Assign) for t in n.targets}
